@@ -82,6 +82,9 @@ func freshLive(k ckind) *live {
 			{"go:m[n]=5", func() { m["n"] = 5 }},
 			{"go:delete(m,a)", func() { delete(m, "a") }},
 			{"go:m[a]=7", func() { m["a"] = 7 }},
+			// size-preserving replacements: one key leaves, another arrives
+			{"go:delete(m,a);m[c]=3", func() { delete(m, "a"); m["c"] = 3 }},
+			{"go:m[c]=3", func() { m["c"] = 3 }},
 		}
 	case kMapIS:
 		m := map[int]string{1: "one", 3: "three"}
@@ -91,6 +94,7 @@ func freshLive(k ckind) *live {
 			{"go:m[2]=two", func() { m[2] = "two" }},
 			{"go:delete(m,1)", func() { delete(m, 1) }},
 			{"go:m[1]=uno", func() { m[1] = "uno" }},
+			{"go:delete(m,1);m[4]=four", func() { delete(m, 1); m[4] = "four" }},
 		}
 	case kSliceI:
 		s := make([]int, 2, 3)
@@ -110,6 +114,19 @@ func freshLive(k ckind) *live {
 				}
 			}},
 			{"go:s=s[:cap]", func() { s = s[:cap(s)] }},
+			// same-length replacements: in place (shared memory) and of the Go variable
+			{"go:swap(s[0],s[last])", func() {
+				if n := len(s); n > 1 {
+					s[0], s[n-1] = s[n-1], s[0]
+				}
+			}},
+			{"go:s=copyOf(s)+10", func() {
+				t := make([]int, len(s), cap(s))
+				for i, v := range s {
+					t[i] = v + 10
+				}
+				s = t
+			}},
 		}
 	case kSliceS:
 		s := make([]string, 2, 3)
@@ -128,6 +145,11 @@ func freshLive(k ckind) *live {
 					s = s[1:]
 				}
 			}},
+			{"go:swap(s[0],s[last])", func() {
+				if n := len(s); n > 1 {
+					s[0], s[n-1] = s[n-1], s[0]
+				}
+			}},
 		}
 	case kArrPtr:
 		a := &[3]int{1, 2, 3}
@@ -136,6 +158,7 @@ func freshLive(k ckind) *live {
 		lv.goOps = []goOp{
 			{"go:a[0]=9", func() { a[0] = 9 }},
 			{"go:*a=zero", func() { *a = [3]int{} }},
+			{"go:*a={3,2,1}", func() { *a = [3]int{3, 2, 1} }},
 		}
 	case kArrVal:
 		a := [3]int{1, 2, 3}
@@ -1059,12 +1082,69 @@ func (h *histRig) replayPath(r *engine.Run, k ckind, path []string, checkAll boo
 	return pre, bad, outcome
 }
 
-func runHistories(r *engine.Run) {
-	depth := 2
-	if r.Thorough() {
-		depth = 3
+// heldLen reads the length of the script-held value without enumerating anything.
+func (h *histRig) heldLen() (n int, fail string) {
+	defer func() {
+		if p := recover(); p != nil {
+			fail = "Export PANIC: " + fmt.Sprint(p)
+		}
+	}()
+	x, err := h.g.VM.Get("c")
+	if err != nil {
+		return 0, err.Error()
 	}
-	r.Bound("depth", fmt.Sprint(depth))
+	e, _ := x.Export()
+	v := reflect.Indirect(reflect.ValueOf(e))
+	if v.IsValid() && (v.Kind() == reflect.Slice || v.Kind() == reflect.Array) {
+		return v.Len(), ""
+	}
+	return 0, ""
+}
+
+// replaySparse replays a path observing (and thereby enumerating) the container
+// only in the initial state and at the end: whatever the bridge remembers from an
+// enumeration must not survive the operations in between. The final state must
+// be the one the fully observed replay reached, and coherent.
+func (h *histRig) replaySparse(k ckind, path []string) (*hobs, string) {
+	if why := h.start(k); why != "" {
+		return nil, why
+	}
+	if first := h.observe(); first.fail != "" {
+		return nil, "initial observation failed: " + first.fail
+	}
+	for _, name := range path {
+		n, why := h.heldLen()
+		if why != "" {
+			return nil, why
+		}
+		op, ok := findOp(alphabet(h.lv, n), name)
+		if !ok {
+			return nil, "operation " + name + " is not in the alphabet of the state reached"
+		}
+		if outcome, _ := h.apply(op, false); strings.HasPrefix(outcome, "PANIC") {
+			return nil, outcome
+		}
+	}
+	last := h.observe()
+	if last.fail != "" {
+		return nil, "final observation failed: " + last.fail
+	}
+	return last, ""
+}
+
+func runHistories(r *engine.Run) {
+	depthFor := func(k ckind) int {
+		if r.Thorough() || k == kMapSI || k == kMapIS {
+			return 3
+		}
+		return 2
+	}
+	if r.Thorough() {
+		r.Bound("depth", "3")
+	} else {
+		r.Bound("depth", "2 (3 for the two map containers)")
+	}
+	r.Bound("sparse_replay", "every path of length >= 2 is replayed a second time with observations only at both ends")
 	r.Bound("containers", strings.Join(kindNames, ", "))
 	h := &histRig{g: brig.NewRig()}
 	if r.ReplayKey != "" {
@@ -1072,7 +1152,19 @@ func runHistories(r *engine.Run) {
 		for ki, kn := range kindNames {
 			if kn == parts[0] {
 				r.Begin(r.ReplayKey)
-				_, bad, outcome := h.replayPath(r, ckind(ki), parts[1:], true, false)
+				post, bad, outcome := h.replayPath(r, ckind(ki), parts[1:], true, false)
+				if post != nil && len(parts) >= 3 {
+					if sp, why := h.replaySparse(ckind(ki), parts[1:]); sp == nil {
+						bad = append(bad, "[sparse] without intermediate observations: "+why)
+					} else {
+						if sp.key != post.key {
+							bad = append(bad, "[sparse] observing the intermediate states changes the outcome: unobserved replay ends in "+sp.key+", observed replay in "+post.key)
+						}
+						for _, b := range cohere(ckind(ki), sp) {
+							bad = append(bad, "[sparse] enumerate / operate / enumerate: "+b)
+						}
+					}
+				}
 				r.End()
 				r.Eval(true)
 				report(r, r.ReplayKey, ckind(ki), parts[1:], bad, outcome)
@@ -1082,6 +1174,7 @@ func runHistories(r *engine.Run) {
 	}
 	for ki := range kindNames {
 		k := ckind(ki)
+		depth := depthFor(k)
 		// the initial state
 		rootKey := kindNames[ki]
 		var first []hop
@@ -1132,6 +1225,23 @@ func runHistories(r *engine.Run) {
 							h.g = brig.NewRig()
 						}
 					}
+					if post != nil && len(path) >= 2 {
+						sp, why := h.replaySparse(k, path)
+						switch {
+						case strings.HasPrefix(why, "PANIC"):
+							h.g = brig.NewRig()
+							bad = append(bad, "[sparse] without intermediate observations the path panics: "+why)
+						case sp == nil:
+							bad = append(bad, "[sparse] without intermediate observations: "+why)
+						default:
+							if sp.key != post.key {
+								bad = append(bad, "[sparse] observing the intermediate states changes the outcome: unobserved replay ends in "+sp.key+", observed replay in "+post.key)
+							}
+							for _, b := range cohere(k, sp) {
+								bad = append(bad, "[sparse] enumerate / operate / enumerate: "+b)
+							}
+						}
+					}
 					r.End()
 					r.Eval(outcome == "ok")
 					r.Tree(0, 1)
@@ -1161,7 +1271,7 @@ func runHistories(r *engine.Run) {
 	}
 }
 
-var classTag = regexp.MustCompile(`\[(phantom-index|go-panic|wrong-store)\]`)
+var classTag = regexp.MustCompile(`\[(phantom-index|go-panic|wrong-store|sparse)\]`)
 
 func report(r *engine.Run, key string, k ckind, path []string, bad []string, outcome string) {
 	if len(bad) == 0 {
